@@ -140,6 +140,12 @@ def run(ctx):
     # ---- R2b whole-graph enumerators and counters draw their entity ids from the primary version table
     enumerators_use_primary(ctx, P, E, "R2b")
 
+    # ---- R8 positions of a filtered view are not positions of the sequence: a function that enumerates a filtered /
+    # flattened / reversed view of a sequence and also enumerates the sequence itself works with two index spaces. The
+    # multi-condition lookup remembers the position of its start condition to skip it later; taken from a filtered view
+    # it skips (leaves unchecked) another condition, and the index path returns nodes a scan would not.
+    positions_comparable(ctx, P, "R8")
+
     # ---- R4 conservative summaries
     PC = "grafeo_core::graph::lpg::property::PropertyColumn"
     n4 = 0
@@ -260,3 +266,33 @@ def enumerators_use_primary(ctx, P, E, rule):
                        "export / save / to_memory copy what this enumerates" if m.startswith("all_") else "counts and scans disagree"),
                where=f.loc())
     ctx.floor(rule, n, 5, "whole-graph enumerators")
+
+
+def positions_comparable(ctx, P, rule):
+    SHIFT = ("filter", "filter_map", "skip_while", "flat_map", "flatten", "rev")
+    nsite = 0
+    for f in sorted(P.fns.values(), key=lambda f: f.id):
+        if f.krate not in ("grafeo_core", "grafeo_engine") or "::tests::" in f.id:
+            continue
+        en = [(bi, t) for bi, t in f.calls() if callee_name(t).endswith("Iterator::enumerate")]
+        if not en:
+            continue
+        nsite += len(en)
+        if len(en) < 2:
+            continue
+        fx = FlowCx(P, f)
+        views = []
+        for bi, t in en:
+            tg = fx.tags(t["args"][0])
+            shifted = sorted({x.split("::")[-1] for x in tg if x.startswith("call:") and x.split("::")[-1] in SHIFT})
+            roots = {x for x in tg if x.startswith("param:") and x != "param:1"}
+            views.append((t["line"], shifted, roots))
+        for (l1, s1, r1) in views:
+            for (l2, s2, r2) in views:
+                if s1 and not s2 and (r1 & r2):
+                    ctx.ob(rule, "%s#enumerate-%s-vs-plain" % (short_id(f.id), "+".join(s1)), False,
+                           what="%s enumerates a %s view of %s (line %d) and the sequence itself (line %d): a position remembered from "
+                                "the first does not name the same element in the second, so the wrong element is skipped / selected"
+                                % (short_id(f.id), "/".join(s1), sorted(r1 & r2), l1, l2), where=f.loc(l1))
+    ctx.floor(rule, nsite, 40, "enumerate() call sites inspected")
+    ctx.ob(rule, "no-mixed-index-spaces", True, what="no function mixes positions of a filtered view with positions of the sequence", where="")
